@@ -50,6 +50,10 @@ Definition w_fn_literal : query := (QSel CQuery [] false [(IT (TFunc "COALESCE" 
 Definition w_fn_literal_text : string := "SELECT COALESCE(`a`,'x'),""y"" FROM `t`".
 Definition w_fn_term_alias : query := (QSel CSnowflake [] false [(IT (TFunc "COALESCE" (TCons (TValS "x" (Some "y")) (TCons (TValI (1)%Z None) TNil)) None None)); (IT (TValS "x" (Some "y")))] [(SrcT {| tname := "t"; tschema := []; talias := None |})] [] None None [] [] None None false None).
 Definition w_fn_term_alias_text : string := "SELECT COALESCE('x' y,1),'x' ""y"" FROM t".
+Definition w_qualifier : query := (QSel CSnowflake [] false [(IT (TField "a" (Some {| tname := "#0"; tschema := []; talias := None |}) None))] [(SrcT {| tname := "t"; tschema := []; talias := (Some "ta") |})] [] None None [] [] None None false None).
+Definition w_qualifier_text : string := "SELECT ta.a FROM t ""ta""".
+Definition w_setop_alias : query := (QSel CSnowflake [] false [(IT (TField "a" (Some {| tname := "#0"; tschema := []; talias := None |}) None))] [(SrcQ (QSet (QSel CSnowflake [] false [(IT (TField "a" None None))] [(SrcT {| tname := "t"; tschema := []; talias := None |})] [] None None [] [] None None false None) [(SUnion, (QSel CSnowflake [] false [(IT (TField "a" None None))] [(SrcT {| tname := "u"; tschema := []; talias := None |})] [] None None [] [] None None false None))] [] None None (Some "su")))] [] None None [] [] None None false None).
+Definition w_setop_alias_text : string := "SELECT su.a FROM ((SELECT a FROM t) UNION (SELECT a FROM u)) ""su""".
 Definition p_nested : query := (QSel CMySQL [] false [(IT (TField "a" (Some {| tname := "#0"; tschema := []; talias := None |}) (Some "al"))); (IT (TCase (WCons (TBasic CGt (TField "a" (Some {| tname := "#0"; tschema := []; talias := None |}) None) (TValI (1)%Z None) None) (TValS "big" None) WNil) (OSome (TValS "small" None)) (Some "sz")))] [(SrcT {| tname := "t"; tschema := []; talias := None |}); (SrcQ (QSel CVertica [] false [(IT (TField "b" (Some {| tname := "#0"; tschema := []; talias := None |}) (Some "bb"))); (IT (TFunc "F" (TCons (TField "c" (Some {| tname := "#1"; tschema := []; talias := None |}) None) TNil) None None))] [(SrcT {| tname := "u"; tschema := []; talias := None |}); (SrcQ (QSel COracle [] false [(IT (TField "c" None (Some "cc")))] [(SrcT {| tname := "v"; tschema := []; talias := None |})] [] (Some (IT (TBasic CEq (TField "c" None None) (TValS "it's" None) None))) None [] [] None None false None))] [] None None [] [] None None false None))] [(JLeft, (SrcQ (QSel CSnowflake [] false [(IT (TField "d" None None))] [(SrcT {| tname := "w"; tschema := []; talias := None |})] [] None None [] [] None None false None)), (JOn (IT (TBasic CEq (TField "a" (Some {| tname := "#0"; tschema := []; talias := None |}) None) (TField "d" (Some {| tname := "#2"; tschema := []; talias := None |}) None) None))))] (Some (IIn (TField "a" (Some {| tname := "#0"; tschema := []; talias := None |}) None) (QSel CClickHouse [] false [(IT (TField "e" None None))] [(SrcT {| tname := "z"; tschema := []; talias := None |})] [] None None [] [] None None false None) false)) None [(IT (TField "a" (Some {| tname := "#0"; tschema := []; talias := None |}) (Some "al")))] [] (Some (3)%Z) None false None).
 Definition p_nested_text : string := "SELECT `t`.`a` `al`,CASE WHEN `t`.`a`>1 THEN 'big' ELSE 'small' END `sz` FROM `t`,(SELECT `u`.`b` `bb`,F(`sq0`.`c`) FROM `u`,(SELECT `c` `cc` FROM `v` WHERE `c`='it''s') `sq0`) `sq1` LEFT JOIN (SELECT `d` FROM `w`) `sq2` ON `t`.`a`=`sq2`.`d` WHERE `t`.`a` IN (SELECT `e` FROM `z`) GROUP BY `al` LIMIT 3".
 Definition w_fn_literal_kw : kwargs := {| kw_q := Some (Some "`"); kw_rest := Some (Some """", None, false) |}.
